@@ -189,3 +189,14 @@ CHECKS["C07"] = {
     "note": "Declined (run-time string rewriting by regexes): pre_process_data spacing, quote-parity handling, comment markers and semicolons inside literals, non-ASCII letters. The property text records such literals come back altered.",
 }
 NOT_APPLICABLE.pop("C07", None)
+
+CHECKS["C02"]["text"] += " In addition the output layer (key collection, NOT NULL forcing, unique propagation, attachment of table-level FOREIGN KEY clauses) is evaluated abstractly on up to 400 structurally distinct tables of the fixed point, including tables whose column names differ only in quoting / case, and the final primary_key / nullable / unique / references / checks are compared with the declarations (O-keys)."
+CHECKS["C02"]["engine"] += " x objabs (final output, O-keys)"
+CHECKS["C10"]["text"] += " Finally Output.format is evaluated abstractly in all 15 modes on a spread of the tables produced by the columns+constraints fixed point and in the default / owning / an unrelated mode on the tables of the ten clause groups: no mode raises, common fields equal the default mode's, dialect keys are at top level only in documented modes (O-mode)."
+CHECKS["C10"]["engine"] += " + objabs (Output.format evaluated abstractly per mode)"
+CHECKS["C11"]["text"] += " The final output is evaluated abstractly in the default mode, the owning dialect's mode and an unrelated mode: what the default mode reports under table_properties is at top level in the owning mode, and common fields are equal (O-mode)."
+CHECKS["C12"]["text"] += " The documented skeleton, booleans and JSON-encodable leaves are additionally checked on the abstractly evaluated final output of the fixed points' tables in six modes (O-shape)."
+CHECKS["C12"]["engine"] += " + E4 fragments x objabs (O-shape)"
+CHECKS["C13"]["text"] = "The regrouping function is evaluated abstractly (object-capable interpreter) on representative flat results - one entity of every kind incl. entities carrying generic keys, reversed order, same kinds separated by others, comments, the empty result, a property with an empty value - and must file every entity once, unchanged, in order, in the bucket of its kind with the six documented buckets present (O-group); the entity statement forms are evaluated down to the grouped output (O-final); structural rules (marker table = documented mapping, f-string markers per grammar alternative, flag consulted only after the flat list is complete) add the cases the scenarios cannot reach."
+CHECKS["C13"]["engine"] = "objabs (regrouping evaluated abstractly) + E4 entities fragment + E5 rules (T-GROUP.*, T-FLAGFLOW, T-AGREE.markers)"
+CHECKS["C13"]["category"] = "other"
